@@ -108,6 +108,10 @@ type Unit struct {
 	Standalone int
 	cellByID map[int]*Cell
 	divMemo  map[string]divEntry
+	readMemo map[string]divEntry
+	blkInfo  map[string]blkMeta
+	ifBase   map[string]*Term
+	ifBound  map[string]*Term
 	paramVals []Val
 	inputArr map[string]*Term
 	symIdxCells map[int]*ListObj
@@ -117,6 +121,14 @@ type Unit struct {
 	TrivialSafety int
 	initCells int
 	nerr     int
+}
+
+// blkMeta: where an unknown block term (slice returned by a contract call)
+// came from: the allocation watermark before the call and how many regions
+// existed then.
+type blkMeta struct {
+	base  *Term
+	epoch int
 }
 
 type divEntry struct {
@@ -151,6 +163,10 @@ func NewUnit(p *Program, target *ssa.Function, cfg Config) *Unit {
 	u.litArr = map[string]*Term{}
 	u.cellByID = map[int]*Cell{}
 	u.divMemo = map[string]divEntry{}
+	u.readMemo = map[string]divEntry{}
+	u.blkInfo = map[string]blkMeta{}
+	u.ifBase = map[string]*Term{}
+	u.ifBound = map[string]*Term{}
 	u.inputArr = map[string]*Term{}
 	u.symIdxCells = map[int]*ListObj{}
 	u.HavocLoops = map[string]int{}
@@ -248,15 +264,46 @@ func (u *Unit) nameShort(t *Term, prefix string) *Term {
 // mkArr builds a derived array; the index of every read is named first so
 // that expansions through long write histories stay linear in size.
 func (u *Unit) mkArr(fn func(idx *Term) *Term) *Term {
-	return MkArr(func(idx *Term) *Term {
-		if u.binder == 0 && len(idx.S) > 48 && !idx.IsInt {
+	narr++
+	id := fmt.Sprintf("<arr#%d>", narr)
+	return &Term{S: id, Sort: SArr, Fn: func(idx *Term) *Term {
+		if u.binder > 0 {
+			return fn(idx)
+		}
+		if len(idx.S) > 48 && !idx.IsInt {
 			c := u.newConst("ix", SInt)
 			u.S.Assert(Eq(c, idx))
 			lo, hi := bounds(idx)
 			idx = WithBounds(c, lo, hi)
 		}
-		return fn(idx)
-	})
+		// reads are memoised per (array, index) while the scope that defined
+		// them is open: expansions through stacked write histories stay a DAG
+		key := id + "@" + idx.S
+		if e, ok := u.readMemo[key]; ok && u.S.Alive(e.scope) {
+			return e.q
+		}
+		v := fn(idx)
+		if len(v.S) > 64 && !v.IsInt {
+			c := u.newConst("rd", SInt)
+			u.S.Assert(Eq(c, v))
+			lo, hi := bounds(v)
+			v = WithBounds(c, lo, hi)
+		}
+		u.readMemo[key] = divEntry{q: v, scope: u.S.ScopeID()}
+		return v
+	}}
+}
+
+// provable: does cond follow from the current path condition?
+func (u *Unit) provable(cond *Term) bool {
+	if cond.IsBool {
+		return cond.B
+	}
+	u.S.Push()
+	u.S.Assert(Not(cond))
+	r := u.S.CheckSatT(u.Cfg.FeasMs)
+	u.S.Pop()
+	return r == "unsat"
 }
 
 func (u *Unit) assume(t *Term) {
